@@ -63,17 +63,10 @@ pub struct InvalidHeaderName { pub x: u8 }
 impl Bytes {
     // A-bytes-24: Bytes::from(String) / copy_from_slice / Vec<u8>::into keep the bytes
     #[verifier::external_body]
-    pub fn from(s: String) -> (r: Bytes) ensures r@ == utf8(s@) { unimplemented!() }
-    #[verifier::external_body]
     pub fn copy_from_slice(s: &[u8]) -> (r: Bytes) ensures r@ == s@ { unimplemented!() }
     #[verifier::external_body]
     pub fn as_ref(&self) -> (r: &[u8]) ensures r@ == self@ { unimplemented!() }
 }
-impl vstd::std_specs::convert::FromSpecImpl<Vec<u8>> for Bytes {
-    open spec fn obeys_from_spec() -> bool { true }
-    open spec fn from_spec(v: Vec<u8>) -> Self { Bytes { v } }
-}
-impl From<Vec<u8>> for Bytes { fn from(v: Vec<u8>) -> (r: Bytes) { Bytes { v } } }
 pub use core::marker::PhantomData;
 '''
 
@@ -175,7 +168,7 @@ def build():
     u._emit('impl value_encoding::Sealed for Binary {\n    open spec fn enc(v: Seq<u8>) -> Seq<u8> { b64_enc(false, v) }\n    open spec fn dec(h: Seq<u8>) -> Option<Seq<u8>> { b64_dec(h) }')
     u._open_header = 'impl value_encoding::Sealed for Binary {'
     u.fn(EN, 'from_bytes', within='impl self::value_encoding::Sealed for Binary',
-         body_start='        broadcast use axiom_b64_legal;')
+         body_start='        broadcast use axiom_b64_legal, axiom_bytes_of_string;')
     u.fn(EN, 'decode', within='impl self::value_encoding::Sealed for Binary',
          closures={0: dict(params='bytes_vec: Vec<u8>', ret='(x: Bytes)', ensures=['x@ == bytes_vec@'])})
     u.close('}')
